@@ -83,7 +83,7 @@ def _mk():
         prm=lambda rng: {'m': rng.choice([0, 1, 2, 3])}, f=None)
     add('hyperu', lambda x, c: algopy.special.hyperu(c['a'], c['b'], x), 'slowgeneric',
         lambda x0, c: [((-1) ** n) * poch(c['a'], n) * sp.hyperu(c['a'] + n, c['b'] + n, x0) for n in range(c['D'])],
-        dom='gam', prm=lambda rng: {'a': rng.choice([0.5, 1.0, 1.5, 2.0]), 'b': rng.choice([0.5, 1.5, 2.5])}, f=None)
+        dom='gam', prm=lambda rng: {'a': rng.choice([0.5, 1.0, 1.5, 2.0, 0.3, 3.7, -0.5, -1.5, -1.3, -2.5, -1.0, -2.0]), 'b': rng.choice([0.5, 1.5, 2.5, -0.5])}, f=None)
     # kink functions, away from the kink
     add('absolute', lambda x, c: algopy.absolute(x), 'absolute', lambda x0, c: [np.sign(x0), np.absolute(x0)], dom='nz')
     add('abs', lambda x, c: abs(x), 'absolute', lambda x0, c: [np.sign(x0), np.absolute(x0)], dom='nz')
